@@ -126,6 +126,20 @@ func exec(t []string) string {
 		}
 		return out
 	}
+	if t[0] == "restart" {
+		out := sim.Exec(t)
+		// the side-chain block cache is memory only: after a restart the node knows the active chain
+		active := map[common.Uint256]bool{}
+		for _, h := range sim.N.ActiveChain() {
+			active[h] = true
+		}
+		for h := range delivered {
+			if !active[h] {
+				delete(delivered, h)
+			}
+		}
+		return out
+	}
 	return sim.Exec(t)
 }
 
@@ -231,6 +245,24 @@ func tree(g *hx.Gen, idx int) {
 	h.Observe(false, 6)
 	branches := 1 + r.Intn(3)
 	for k := 0; k < branches; k++ {
+		// a node restart rebuilds the block index from the stored chain (initChainState / LoadBlockNode): the
+		// cumulative work of the reloaded nodes decides the next comparisons. Sometimes a stale, lighter fork
+		// off an old ancestor follows at once: the node has to stay where it is.
+		if !sim.Retarget && len(trunk.Blocks) >= 3 && r.Chance(22) {
+			if th, _ := sim.N.Tip(); th == sim.BranchTip(trunk).Hash() {
+				g.Emit("restart")
+				if r.Chance(60) {
+					back := 2 + r.Intn(len(trunk.Blocks)-2)
+					sbr := regnet.Fork(trunk, len(trunk.Blocks)-back)
+					for i := 0; i < 1+r.Intn(back-1); i++ {
+						b := h.HonestBlock(sbr, 1)
+						sbr = regnet.Extend(sbr, b)
+						h.Deliver(b)
+					}
+					h.Observe(false, 4)
+				}
+			}
+		}
 		depth := 1 + r.Intn(6)
 		if depth > len(trunk.Blocks) {
 			depth = len(trunk.Blocks)
